@@ -1,12 +1,107 @@
 package main
 
 import (
+	"fmt"
 	"go/ast"
+	"go/types"
+	"strings"
 )
 
+// execIterator treats  x.eachGroup(func(g *Group) { body })  (and the other
+// three iterators of the package) as a loop over an abstract finite sequence
+// of parameter tuples: tuple k is (it_N_0[k], it_N_1[k], ...), the loop
+// position is idx_N and the length itlen_N.  Which tuples the sequence holds
+// is the iterator's (assumed) contract: the sequence is a function of the
+// receiver named seqOf_<iterator>, so two walks over the same receiver see the
+// same sequence.  A return inside the closure is a continue.
 func (c *FuncCtx) execIterator(st *State, call *ast.CallExpr, sel *ast.SelectorExpr, fl *ast.FuncLit) []outcome {
-	limitf("%s: iterator closures not yet supported", c.eng.posStr(call.Pos()))
-	return nil
+	recv := c.eval(st, sel.X)
+	if p, ok := under(recv.T).(*types.Pointer); ok && c.eng.isHeapStruct(p.Elem()) {
+		c.safe(st, "nil", call.Pos(), mkNot(mkEq(recv.S, "0")), "iterator called on nil receiver")
+	}
+	// find the actual receiver of the iterator method (promoted through embedding)
+	obj, path, _ := types.LookupFieldOrMethod(recv.T, true, c.eng.pkg.Types, sel.Sel.Name)
+	fn, ok := obj.(*types.Func)
+	if !ok {
+		limitf("%s: %s is not a method", c.eng.posStr(call.Pos()), sel.Sel.Name)
+	}
+	cur := recv
+	for _, idx := range path[:len(path)-1] {
+		cur = c.fieldStep(st, cur, idx, sel.Pos())
+	}
+	for _, a := range call.Args {
+		if _, isLit := a.(*ast.FuncLit); !isLit {
+			c.eval(st, a) // e.g. the "recurse" flag of eachCommand
+		}
+	}
+	li := c.newLoopInfo(call, call.Pos())
+	li.modVars, li.modHeap = c.eng.loopMods(c, fl.Body)
+	inv, _ := c.loopSpec(li.ord)
+	ftype := c.typeOf(fl).(*types.Signature)
+	np := ftype.Params().Len()
+	iterKey := c.eng.fobjs[fn]
+	// the ghost sequence: one array per closure parameter, a function of the receiver
+	seq := make([]string, np)
+	for j := 0; j < np; j++ {
+		uf := fmt.Sprintf("seqOf_%s_%d", strings.ReplaceAll(iterKey, ".", "_"), j)
+		c.eng.declareUF(uf, fmt.Sprintf("(declare-fun %s (Int) (Array Int %s))", uf, c.eng.sortOf(ftype.Params().At(j).Type())))
+		seq[j] = app(uf, cur.S)
+	}
+	lenUF := fmt.Sprintf("seqLen_%s", strings.ReplaceAll(iterKey, ".", "_"))
+	c.eng.declareUF(lenUF, fmt.Sprintf("(declare-fun %s (Int) Int)", lenUF))
+	length := app(lenUF, cur.S)
+	st.assume(app("<=", "0", length))
+	idxName := fmt.Sprintf("idx_%d", li.ord)
+	li.extra[idxName] = &Val{T: tInt, S: "0", Sort: "Int"}
+	li.extra[fmt.Sprintf("itlen_%d", li.ord)] = &Val{T: tInt, S: length, Sort: "Int"}
+	for j := 0; j < np; j++ {
+		li.extra[fmt.Sprintf("it_%d_%d", li.ord, j)] = &Val{T: types.NewSlice(ftype.Params().At(j).Type()), S: app("mk_"+c.eng.sortOf(types.NewSlice(ftype.Params().At(j).Type())), seq[j], "0", length, tFalse), Sort: c.eng.sortOf(types.NewSlice(ftype.Params().At(j).Type()))}
+	}
+	c.checkInv(st, li, inv, "init")
+	h := st.clone()
+	c.havocLoop(h, li)
+	k := c.fresh(idxName, "Int")
+	h.assume(mkAnd(app("<=", "0", k), app("<=", k, length)))
+	li.extra[idxName] = &Val{T: tInt, S: k, Sort: "Int"}
+	c.assumeInv(h, li, inv)
+	var outs []outcome
+	e := h.clone()
+	e.assume(mkEq(k, length))
+	outs = append(outs, outcome{oNext, e})
+	b := h.clone()
+	b.assume(app("<", k, length))
+	// bind closure parameters
+	j := 0
+	for _, f := range fl.Type.Params.List {
+		for _, n := range f.Names {
+			pt := ftype.Params().At(j).Type()
+			v := c.val(mkSel(seq[j], k), pt)
+			b.assume(c.eng.typeFacts(v.S, pt))
+			c.wfElem(b, v)
+			if o, ok := c.eng.info.Defs[n].(*types.Var); ok && o != nil {
+				b.vars[o] = v
+			}
+			j++
+		}
+	}
+	savedFrame := b.frame
+	b.frame = &frame{decl: c.decl, closure: true, parent: savedFrame}
+	for _, o := range c.execBlock(b, fl.Body.List) {
+		switch o.kind {
+		case oNext, oContinue:
+			o.st.frame = savedFrame
+			li2 := *li
+			li2.extra = map[string]*Val{}
+			for kk, vv := range li.extra {
+				li2.extra[kk] = vv
+			}
+			li2.extra[idxName] = &Val{T: tInt, S: mkAdd(k, "1"), Sort: "Int"}
+			c.checkInv(o.st, &li2, inv, "step")
+		default:
+			limitf("%s: break/return-with-value inside an iterator closure", c.eng.posStr(call.Pos()))
+		}
+	}
+	return outs
 }
 
 func (c *FuncCtx) execRangeMapImpl(st *State, x *ast.RangeStmt, coll *Val, li *loopInfo, inv []*Clause) []outcome {
